@@ -121,6 +121,17 @@ func cmdCheck(args []string) int {
 		return 2
 	}
 	tLoad := time.Since(t0).Seconds()
+	for _, f := range loadKnown(*known).Findings {
+		knownObls[f.Obligation] = true
+		if len(f.Parts) > 0 {
+			if knownParts[f.Obligation] == nil {
+				knownParts[f.Obligation] = map[string]bool{}
+			}
+			for _, p := range f.Parts {
+				knownParts[f.Obligation][p] = true
+			}
+		}
+	}
 	var pats []string
 	if *funcs != "" {
 		pats = strings.Split(*funcs, ",")
@@ -192,9 +203,6 @@ func cmdCheck(args []string) int {
 	}
 	sort.Strings(stale)
 	tGen := time.Since(t0).Seconds() - tLoad
-	for _, f := range loadKnown(*known).Findings {
-		knownObls[f.Obligation] = true
-	}
 	stats := &SolveStats{SolverSec: map[string]float64{}}
 	solveAll(allPaths, *work, ms, *jobs, *solver, stats)
 	tSolve := time.Since(t0).Seconds() - tLoad - tGen
